@@ -64,13 +64,14 @@ CLAIMS = [
     },
     {
         "id": "C17",
-        "technique": "static analysis: global-state inventory, atomic RMW and who-may-construct facts from MIR, lock-order/lock-scope analysis of cajun's async fns on HIR, arm table of the cancellation match",
+        "technique": "static analysis: global-state inventory, atomic RMW and who-may-construct facts from MIR, lock-order/lock-scope analysis of cajun's async fns on HIR, guard-liveness dataflow over MIR at salsa input writes, arm table of the cancellation match",
         "level_text": "Decides structural necessary conditions of snapshot isolation: every interior-mutable static is audited (one: the "
                       "key-space counter, touched by a single fetch_update/checked_add in KeySpaceId::fresh only); KeySpaceId and "
                       "IdAllocator cannot be forged or copied (private fields, constructor inventory, no Clone/Copy, &mut alloc); "
                       "mutable session state is Arc-shared with snapshots; in cajun every async fn takes session before projects, holds "
                       "no guard across spawn_blocking, reads the revision before the snapshot and re-checks it under the session lock "
-                      "before publishing; AnalysisTask::run's cancellation table is exact.",
+                      "before publishing; AnalysisTask::run's cancellation table is exact; no registry or lock guard is live at a salsa "
+                      "input write (MIR may-analysis, 6 writes); a session built from another shares the other's registry Arc.",
         "level_note": "Interleavings are NOT explored (that is model checking / stress, a different family): absence of deadlock and of "
                       "mixed-revision results is argued from lock order and scope only. Known finding F6 (pending slot, two critical "
                       "sections) is listed. F38 (get-then-insert on the registry shared with snapshots; 266 / 324 stale iterations of 3000) was "
